@@ -69,6 +69,12 @@ CHECKS = {
   text="Histories of sets/deletes/batches (write, reset, abandon, reuse)/reopens over hostile key shapes; after every operation lookups and forward/reverse/prefix iterations with bounds are compared with the reference. "
        "C19R: writers commit batches of unique generations while readers take iterator snapshots; every snapshot must equal the reference after some prefix of the batch order. Held on the histories explored, modulo the listed known findings.",
   note="six genuine defects fixed; seven recorded as known findings (empty-key writes dropped by bolt/badger, badger batch auto-commit, hash-sharded stores with db_counts>1 are not ordered) - known_findings.txt."),
+ "C07": dict(
+  level="exploration", design="§5 C07", engine="chainkit",
+  technique="history monitoring of real chains read back from the block store (key-image multiset, per-sender nonce sequences, tx-hash multiset) under an attacker that re-uses inputs at every entry point; concurrent mempool lane C07R under the race detector",
+  text="Generated chains with confidential and account transactions; attacks: same key image twice in one tx, two spends in one block (Byzantine hand-built blocks re-issued with the validator's own result fields so that the double spend is the only possible reason for rejection), re-spend of committed inputs via mempool / CheckTx / blocks, after restarts, ring size 1 vs larger ring, account tx replays, nonce gaps. "
+       "Every attempt must be refused with the error class of the attacked mechanism and the read-back chain must satisfy the oracle; positive controls must be accepted. Held on the chains and attempts explored.",
+  note="restart re-opens the same MemDB objects (disk flush defects and the SaveBlock/SaveUtxo crash window belong to C13/C19); only LKC confidential transfers; crypto stand-in has the real algebra but is not Monero bit-compatible."),
  "C09": dict(
   level="exploration", design="§5 C09", engine="refmodel",
   technique="recorded-observation and differential-twin monitoring of the real StateDB: random programs with nested snapshot/revert and copies on all four storage backends",
@@ -82,6 +88,12 @@ CHECKS = {
        "after each history the canonical-root, lookup, iteration and proof oracles are evaluated against a content map, every proof is "
        "tampered node by node. Held on the executions listed in evidence, nothing more.",
   note="trusted: keccak, ser encoding as black boxes, the 60-line content-map oracle. Known finding: iteration order for prefix-related keys (known_findings.txt)."),
+ "C20": dict(
+  level="exploration", design="§5 C20", engine="core",
+  technique="tracer-based frame monitoring of the real EVM (runtime.Execute/Call/Create with evm.Config{Debug, Tracer}): panic capture, gas arithmetic, step budget, world-state snapshot before/after every failing inner frame, second independent run for determinism",
+  text="Uniform random and grammar-generated programs (truncated pushes, invalid jumps, huge memory offsets, CALL family to self/others/precompiles, CREATE/CREATE2, SELFDESTRUCT, chain token opcodes, recursion to the depth limit) for gas in {0,1,2300,1e5,1e7...}. "
+       "Violations: panic/fatal, left-over gas > supplied, gas increasing inside a frame, steps > max(1e7,100*gas), a failed frame leaving any getter-observable state change, value of a failed call not back with the caller, two runs differing in result/gas/state root/trace. Held on the programs explored, modulo the known finding.",
+  note="WASM is not reached (no toolchain for programs); execution through vm/runtime, not through transactions. One genuine defect fixed, one known finding (unmetered decimals() probe after ISSUE)."),
 }
 
 NOT_YET = "check not built yet in this commit (see DESIGN.md §5 for the planned monitor)"
